@@ -58,6 +58,15 @@ var hDefault = func(w *sys.World) string { // a well-behaved handler: read the r
 	}
 }
 
+// hDrain: a handler that reads until its peer is done (or the stream fails) and then returns
+var hDrain = func(w *sys.World) string {
+	h := w.Last().App["sv"]
+	if h == "h:none" || strings.HasPrefix(h, "h:msg:") {
+		return "recv"
+	}
+	return "retnil"
+}
+
 func cfgString(c sys.Config) string {
 	return fmt.Sprintf("small=%v manual=%v soft=%v gateu=%v points=%v", c.Small, c.Manual, c.Soft, c.GateU, c.Points)
 }
